@@ -226,10 +226,12 @@ def handler(case, name):
     return best
 
 
-def clashes(case):
-    """independent oracle: (conflict exists, duplicate exists) on the call list, as the property words it"""
+def clashes(case, pkg="files"):
+    """independent oracle: (conflict exists, duplicate exists) on the call list of one package, as the property words it"""
     calls = []
-    files = sorted(case["files"], key=lambda f: f["name"])
+    files = sorted(case.get(pkg) or [], key=lambda f: f["name"])
+    if pkg == "files" and case.get("extra_calls"):
+        files = files + [{"name": "~extra", "calls": case["extra_calls"]}]
     for f in files:
         for c in f["calls"]:
             h = handler(case, c["name"])
@@ -254,8 +256,18 @@ def arity(plugin):
 
 
 def spec_verdict(case, variant):
-    """What the property says about exit status: 'fail', 'ok' or None (the property does not say)."""
-    conflict, duplicate = clashes(case)
+    """What the property says about the exit status of the invocation: 'fail', 'ok' or None (the property does
+    not say). With two packages in one invocation: fails if one of them must fail, ok if both must be accepted."""
+    if case.get("pkg2"):
+        vs = [spec_verdict_pkg(case, variant, "files"), spec_verdict_pkg(case, variant, "pkg2")]
+        if "fail" in vs:
+            return "fail"
+        return "ok" if vs == ["ok", "ok"] else None
+    return spec_verdict_pkg(case, variant, "files")
+
+
+def spec_verdict_pkg(case, variant, pkg):
+    conflict, duplicate = clashes(case, pkg)
     if case.get("stream") == "chan":
         # types that are assignable one way (chan int for <-chan int) are outside the property's domain: what is
         # fixed is the conflict clause where sharing is impossible — a name used with a type list and LATER with
@@ -305,7 +317,7 @@ def compare_case(case, variant, obs, model, check_types=True):
     """Returns (spec_problem, corr_problem): strings or None."""
     spec = None
     corr = None
-    want = spec_verdict(case, variant) if case["stream"] in ("exhaustive", "exhaustive-arity", "exhaustive-repeat", "random", "imported", "pending", "chan") else None
+    want = spec_verdict(case, variant) if case["stream"] in ("exhaustive", "exhaustive-arity", "exhaustive-repeat", "random", "imported", "pending", "chan", "twopkg") else None
     if obs["class"] in ("timeout", "other", "panic"):
         spec = "goderive ended with %s (rc=%s): %s" % (obs["class"], obs["rc"], obs.get("stderr", "")[:300])
         return spec, corr
